@@ -186,7 +186,8 @@ def runRace (b : Block) : Res :=
     match s.splitOn ":" with | [f, n] => some (natOf f, natOf n) | _ => none)
   let raceL := (field b "race").getD []
   let c12 : Option String :=
-    if raceL.head? = some "yes" then some s!"data_race:{raceL.getD 1 "?"}"
+    if raceL.head? = some "yes" ∧ raceL.getD 1 "" = "HARNESS-RACE" then none
+    else if raceL.head? = some "yes" then some s!"data_race:{raceL.getD 1 "?"}"
     else match got.find? (fun o => (o.startsWith "ok:" || o.startsWith "err:" || o.startsWith "panic:" || o.startsWith "rd:") && !seq.contains o) with
       | some o => some s!"concurrent_outcome_{o}_never_produced_sequentially_{seq}"
       | none => if raceL.isEmpty then some "no_race_verdict" else none
@@ -215,7 +216,8 @@ def runRace (b : Block) : Res :=
     s!"concurrent_Convert_ended_{o}_which_no_sequential_Convert_does_{seq.filter (·.startsWith "cv:")}")
   let c06 := c06.or ((got.find? (fun o => o.startsWith "cv:panic:")).map (fun o => s!"concurrent_{o}"))
   let c12 := c12.or c10
-  { conform := none, propNA := true,
+  -- a race between two pieces of harness code is a defect of the harness: shown as a divergence, not as a violation
+  { conform := if raceL.head? = some "yes" ∧ raceL.getD 1 "" = "HARNESS-RACE" then some "data_race_inside_the_harness" else none, propNA := true,
     props := [("C12", verdictStr c12), ("C11", verdictStr c11), ("C06", verdictStr c06), ("C04", verdictStr c04), ("C01", verdictStr c01), ("C10", verdictStr c10)],
     stats := [s!"execs={(once.map (·.2)).foldl (· + ·) 0 + 1}", s!"once={once.length}", s!"outcome=race", s!"convs={once.length}"] }
 
